@@ -72,7 +72,13 @@ struct rec
     msg cur = {};
     const char* const* names = nullptr; unsigned nnames = 0;
 
-    void close() { if (!open) return; if (n < MAXMSG) m[n++] = cur; else overflow = 1; open = false; }
+    void close() {
+        if (!open) return;
+        open = false;
+        if (cur.kind == M_RECOGNIZED && cur.a == nnames - 2) return;   // the end-of-input term is re-announced at every step; not part of the compared log
+        if (cur.kind >= M_RX_RECOGNIZED) return;                        // lexer-internal trace lines
+        if (n < MAXMSG) m[n++] = cur; else overflow = 1;
+    }
     unsigned name_to_term(const char* s) const {
         for (unsigned i = 0; i < nnames; ++i) if (names[i] == s) return i;
         return 0xfffe;
@@ -107,6 +113,63 @@ struct rec
             out[O_MSG0 + MSG_SLOTS * i + 0] = m[i].kind; out[O_MSG0 + MSG_SLOTS * i + 1] = m[i].line; out[O_MSG0 + MSG_SLOTS * i + 2] = m[i].col;
             out[O_MSG0 + MSG_SLOTS * i + 3] = m[i].a; out[O_MSG0 + MSG_SLOTS * i + 4] = m[i].b;
         }
+        if (overflow) out[O_FLAGS] |= 1u;
+    }
+};
+
+// hashing recorder for verbose traces: no message array, a rolling hash over (kind, line, col, argument) and the
+// sequence of state numbers printed by shift / goto / recovering-to messages (compared up to a bijection by the oracle)
+#ifndef MAXST
+#define MAXST 8
+#endif
+struct hrec
+{
+    unsigned h = 2166136261u, n = 0, nst = 0, overflow = 0, writes = 0;
+    unsigned st[MAXST] = {};
+    bool open = false;
+    msg cur = {};
+    const char* const* names = nullptr; unsigned nnames = 0;
+    static unsigned mix(unsigned h, unsigned v) { return ((h << 5) | (h >> 27)) + v + 0x9e3779b9u; }   // add/rotate: cheap to bit-blast; collisions can only hide, never raise, an alarm
+    void close() {
+        if (!open) return;
+        if ((cur.kind == M_RECOGNIZED && cur.a == nnames - 2) || cur.kind >= M_RX_RECOGNIZED) { open = false; return; }
+        bool stk = (cur.kind == M_SHIFT || cur.kind == M_GOTO || cur.kind == M_RECOVERING_TO);
+        h = mix(mix(mix(h, cur.kind), cur.line), cur.col);
+        if (stk) { if (nst < MAXST) st[nst++] = cur.a; else overflow = 1; h = mix(h, cur.kind == M_SHIFT ? cur.b : 0u); }
+        else h = mix(h, cur.a);
+        n++; open = false;
+    }
+    unsigned name_to_term(const char* s) const {
+        for (unsigned i = 0; i < nnames; ++i) if (names[i] == s) return i;
+        return 0xfffe;
+    }
+    void put_int(unsigned v) { if (cur.nint == 0) cur.a = v; else if (cur.nint == 1) cur.b = v; cur.nint++; }
+    template<typename T>
+    hrec& operator<<(T&& v)
+    {
+        using U = std::remove_cv_t<std::remove_reference_t<T>>;
+        ++writes;
+        if constexpr (std::is_same_v<U, ctpg::source_point>) {
+            close(); cur = msg{}; cur.kind = 0xffffu; cur.line = v.line; cur.col = v.column; open = true;
+        } else if constexpr (std::is_array_v<U>) {
+            bool ends = false; unsigned k = classify(v, ends);
+            if (!open) { cur = msg{}; cur.kind = 0xffffu; open = true; }
+            if (k != 0xffffu && cur.kind == 0xffffu) cur.kind = k;
+            if (ends) { if (cur.kind == 0xffffu) cur.kind = M_OTHER; close(); }
+        } else if constexpr (std::is_same_v<U, const char*> || std::is_same_v<U, char*>) {
+            if (open && (cur.kind == M_SYNTAX_ERROR || cur.kind == M_RECOGNIZED || cur.kind == M_CONSUMING)) put_int(name_to_term(v));
+            else if (open && cur.kind == M_SHIFT) put_int(0xffffffffu);   // shift of the error token prints its name
+        } else if constexpr (std::is_same_v<U, std::string_view>) {
+            if (open) put_int((unsigned)v.size() | (v.size() ? ((unsigned)(unsigned char)v[0] << 16) : 0));
+        } else if constexpr (std::is_integral_v<U>) {
+            if (open) put_int((unsigned)(std::make_unsigned_t<U>)v);
+        }
+        return *this;
+    }
+    void flush(uint32_t* out) {
+        close();
+        out[O_NMSG] = n; out[O_AUX + 0] = h; out[O_AUX + 1] = nst;
+        for (unsigned i = 0; i < MAXST; ++i) out[O_AUX + 2 + i] = st[i];
         if (overflow) out[O_FLAGS] |= 1u;
     }
 };
